@@ -130,6 +130,7 @@ func c01BuildOpts(r *rand.Rand, next http.Handler, weights []int, histLen int, o
 		urls[i] = mustURL(sfmt("http://srv%d.test:80%d/p", i, i))
 	}
 	var hist []string
+	present := make([]bool, len(urls)) // which servers the successful calls so far have left in the pool
 	extra := []*url.URL{mustURL("http://extra1.test/"), mustURL("http://extra2.test/x")}
 	for h := 0; h < histLen; h++ {
 		switch r.IntN(6) {
@@ -148,10 +149,15 @@ func c01BuildOpts(r *rand.Rand, next http.Handler, weights []int, histLen int, o
 			hist = append(hist, "rm-extra")
 		case 2:
 			i := r.IntN(len(urls))
-			_ = rr.UpsertServer(urls[i], roundrobin.Weight(1+r.IntN(9)))
+			if rr.UpsertServer(urls[i], roundrobin.Weight(1+r.IntN(9))) == nil {
+				present[i] = true
+			}
 			hist = append(hist, sfmt("up%d", i))
 		case 3:
-			_ = rr.RemoveServer(urls[r.IntN(len(urls))])
+			i := r.IntN(len(urls))
+			if rr.RemoveServer(urls[i]) == nil {
+				present[i] = false
+			}
 			hist = append(hist, "rm")
 		case 4:
 			k := r.IntN(7)
@@ -174,7 +180,13 @@ func c01BuildOpts(r *rand.Rand, next http.Handler, weights []int, histLen int, o
 		}
 		// the caller hands over its own url.URL value and goes on using (re-using, editing) it afterwards
 		mine := *urls[i]
-		if err := rr.UpsertServer(&mine, roundrobin.Weight(w)); err != nil {
+		if w == 1 && !present[i] && r.IntN(2) == 0 {
+			// a server that is not in the pool, registered without any option: it gets the default weight 1
+			if err := rr.UpsertServer(&mine); err != nil {
+				return nil, nil, nil, err
+			}
+			hist = append(hist, sfmt("add%d-without-options", i))
+		} else if err := rr.UpsertServer(&mine, roundrobin.Weight(w)); err != nil {
 			return nil, nil, nil, err
 		}
 		mine.Host, mine.Path = "scribbled-after-the-call.test", "/scribbled"
